@@ -39,6 +39,12 @@ Lemma fetch_shape :
   G.catches_nothing_else = true.
 Proof. repeat split; reflexivity. Qed.
 
+(* what validations that overlap in time share is the key storage and nothing else (Model/ValidatorConc.v: the threads
+   of a [cstate] have [cs_cache] in common): no other attribute is ever assigned on the instance, no class-level or
+   closure state *)
+Lemma instance_state : G.instance_state_is_storage_only = true.
+Proof. reflexivity. Qed.
+
 (* consequence: with the generated table the dispatch is the model's *)
 Lemma verify_sig_generated w k p :
   verify_sig w k p = match p_sig p with
